@@ -61,6 +61,7 @@ let verdict_of (param : string) (arg : string) (impl : string) : string =
   if impl = "" then "-" else begin
     let fails = ref [] in
     if impl = "PANIC" then fails := "C10:compiler-panicked" :: !fails;
+    if impl = "TIMEOUT" then fails := "C10:compiler-did-not-return-within-the-time-limit" :: !fails;
     let params = if param = "" then [] else List.filter_map (fun kv -> match String.index_opt kv '=' with
         | Some i -> Some (String.sub kv 0 i, String.sub kv (i + 1) (String.length kv - i - 1)) | None -> None) (String.split_on_char ';' param) in
     (match String.split_on_char ' ' impl with
